@@ -267,6 +267,19 @@ def check_cases(ctx, cases):
             if ev.id != ev.compute_hash():
                 ctx.fail(case, f"evolve({f.name}=…) yields an id that does not match the new content", "evolve-id-stale", {"field": f.name})
                 break
+            # the same new value handed over as a one-shot iterable / a list (accepted where a converter
+            # takes any iterable): the copy is the same as with the tuple
+            newv = getattr(other, f.name)
+            if isinstance(newv, tuple):
+                for wrap in (iter, lambda v: (x for x in v), list):
+                    try:
+                        ev2 = o.evolve(**{f.name: wrap(newv)})
+                    except (ValueError, TypeError):
+                        continue
+                    ctx.count("evolve-iterable-accepted")
+                    if ev2 != ev or ev2.id != ev.id or ev2.id != ev2.compute_hash():
+                        ctx.fail(case, f"evolve({f.name}=<iterable>) yields another copy than with the same values as a tuple (id does not match the content)", "evolve-iterable-differs", {"field": f.name})
+                        break
             try:
                 kwargs = {a.name: getattr(ev, a.name) for a in attr.fields(type(ev)) if a.name != "id"}
                 fresh = type(ev)(**kwargs)
